@@ -17,6 +17,7 @@ import (
 	"go.nanomsg.org/mangos/v3/protocol/xpush"
 	_ "go.nanomsg.org/mangos/v3/transport/inproc"
 	"go.nanomsg.org/mangos/v3/vh/c14"
+	"go.nanomsg.org/mangos/v3/vh/c18"
 	"go.nanomsg.org/mangos/v3/vh/kit"
 	"go.nanomsg.org/mangos/v3/vh/vt"
 	"go.nanomsg.org/mangos/v3/vz/vexplore"
@@ -58,6 +59,9 @@ func init() {
 		}
 		out = append(out,
 			&vexplore.Scenario{Name: "pair-dialed-connection-lost-while-attaching", Mode: "sched", Bound: b, Reset: kit.ResetGlobals, Body: c14.LostWhileAttaching},
+			&vexplore.Scenario{Name: "pair-sched-two-connections-at-once", Mode: "sched", Bound: b, Reset: kit.ResetGlobals, Body: func() { pairTwoAtOnce(pair.NewSocket, nil) }},
+			&vexplore.Scenario{Name: "pair1-sched-two-connections-at-once", Mode: "sched", Bound: b, Reset: kit.ResetGlobals, Body: func() { pairTwoAtOnce(pair1.NewSocket, []byte{0, 0, 0, 1}) }},
+			&vexplore.Scenario{Name: "fail-no-peers-with-busy-peers", Mode: "enum", Reset: kit.ResetGlobals, Body: c18.FailNoPeers, NeedCounters: []string{"one-of-two-peers-leaves"}},
 			&vexplore.Scenario{Name: "large-bodies-byte-api-retained", Mode: "enum", Reset: kit.ResetGlobals, Body: largeBodies, NeedCounters: []string{"large-bodies-intact"}},
 		)
 		for _, k := range []struct {
@@ -179,6 +183,54 @@ func pairInproc(c ctor) {
 	}
 	kit.Observe("q=%d %q", q, got)
 	kit.Must("Close", func() { _ = a.Close(); _ = b.Close() })
+}
+
+// pairTwoAtOnce: a PAIR socket listens on two addresses and a connection arrives on each at the same
+// moment (two accept loops attach concurrently).  Exactly one of them becomes the peer; the other
+// is closed.  What the peer sends is received, what the application sends goes to the peer only,
+// and nothing the refused connection sent is delivered.
+func pairTwoAtOnce(c ctor, hdr []byte) {
+	s, err := c()
+	must(err, "NewSocket")
+	attached := map[uint32]bool{}
+	s.SetPipeEventHook(func(ev mangos.PipeEvent, p mangos.Pipe) {
+		switch ev {
+		case mangos.PipeEventAttached:
+			attached[p.ID()] = true
+		case mangos.PipeEventDetached:
+			delete(attached, p.ID())
+		}
+	})
+	ea, eb := vt.Get("paira"), vt.Get("pairb")
+	must(s.Listen("vt://paira"), "Listen")
+	must(s.Listen("vt://pairb"), "Listen")
+	pa := ea.Connect()
+	pb := eb.Connect()
+	kit.Quiesce()
+	if len(attached) != 1 || pa.ClosedByMangos() == pb.ClosedByMangos() {
+		kit.Failf("two-peers-attached", "two connections arrived at once on two listeners of one PAIR socket: %d pipes are attached (connection A closed=%v, connection B closed=%v), want exactly one", len(attached), pa.ClosedByMangos(), pb.ClosedByMangos())
+	}
+	cur, other := pa, pb
+	if pa.ClosedByMangos() {
+		cur, other = pb, pa
+	}
+	other.Deliver(append(append([]byte{}, hdr...), "from-the-refused-connection"...))
+	cur.Deliver(append(append([]byte{}, hdr...), "from-the-peer"...))
+	r := kit.Start("Recv", func() (interface{}, error) { m, err := kit.Recv(s); return string(m), err })
+	kit.Quiesce()
+	if !r.Done() || r.Err != nil || r.Val.(string) != "from-the-peer" {
+		kit.Failf("recv-from-peer", "Recv done=%v %s %q, want the message of the attached peer", r.Done(), kit.ErrName(r.Err), r.Val)
+	}
+	sc := kit.Start("Send", func() (interface{}, error) { return nil, kit.SendBytes(s, []byte("to-the-peer")) })
+	kit.Quiesce()
+	if !sc.Done() || sc.Err != nil {
+		kit.Failf("send-stuck", "Send done=%v %s with the peer attached and taking", sc.Done(), kit.ErrName(sc.Err))
+	}
+	if cur.NumSent() != 1 || other.NumSent() != 0 {
+		kit.Failf("sent-to-refused", "the peer got %d message(s), the refused connection %d; want 1 and 0", cur.NumSent(), other.NumSent())
+	}
+	kit.Observe("peer=%v", cur == pa)
+	kit.Must("Close", func() { _ = s.Close() })
 }
 
 func body(sm vt.Sent) string { return string(sm.Data[sm.HLen:]) }
